@@ -61,7 +61,13 @@ struct ProjVis {
 		case 1: if constexpr(is_mutable_view<V>) { auto&& pv = multi::blas::imag(v); check_addr(K, pv, m, [&](L k) { return dp(k, 1); }); } else { count("skipped:real/imag-of-read-only-view-type"); } break;
 		case 2: case 5: { auto&& pv = std::as_const(v).template reinterpret_array_cast<double>(2); MV xm; xm.size = m.size; xm.size.push_back(2); auto rs = tuple_to_vec(pv.sizes()); if(rs != xm.size) violation(K + "extents", "sizes " + join(rs, "x") + " expected " + join(xm.size, "x"));
 			else { std::vector<L> jx; for(L k = 0; k < N; ++k) for(int j = 0; j < 2; ++j) { m.unlin(k, jx); jx.push_back(j); if(static_cast<void const*>(std::addressof(brk(pv, jx))) != dp(k, j)) violation(K + "address", "element [..., " + std::to_string(j) + "] does not overlay byte offset j*sizeof(double) of the source element"); }
-				if(which == 5) { multi::array<double, D + 1> C(pv); for(L k = 0; k < N; ++k) if(C.data_elements()[2 * k] != src(k).real() || C.data_elements()[2 * k + 1] != src(k).imag()) violation(K + "value", "array constructed from the reinterpreted view differs"); } } break; }
+				if(which == 5) { multi::array<double, D + 1> C(pv); for(L k = 0; k < N; ++k) if(C.data_elements()[2 * k] != src(k).real() || C.data_elements()[2 * k + 1] != src(k).imag()) violation(K + "value", "array constructed from the reinterpreted view differs"); } }
+			if constexpr(is_mutable_view<V> && !std::is_const_v<std::remove_reference_t<V>>) {  // the same through the mutable lvalue and the rvalue overloads (+ write-through)
+				auto chk2 = [&](auto&& qv, char const* form) { auto rs2 = tuple_to_vec(qv.sizes()); if(rs2 != xm.size) { violation(K + form + ":extents", std::string(form) + ": sizes " + join(rs2, "x") + " expected " + join(xm.size, "x")); return; }
+					std::vector<L> jx; for(L k = 0; k < N; ++k) for(int j = 0; j < 2; ++j) { m.unlin(k, jx); jx.push_back(j); if(static_cast<void const*>(std::addressof(brk(qv, jx))) != dp(k, j)) { violation(K + form + ":address", std::string(form) + ": element [..., j] does not overlay byte offset j*sizeof(double) of the source element"); return; } }
+					L const k = g->below(N); m.unlin(k, jx); jx.push_back(1); brk(qv, jx) = -77.5; if(src(k).imag() != -77.5) violation(K + form + ":write-through", std::string(form) + ": a write through the reinterpreted view did not land in the source element"); count(std::string("reinterpret-form:") + form); };
+				chk2(v.template reinterpret_array_cast<double>(2), "lvalue"); chk2(std::move(v).template reinterpret_array_cast<double>(2), "rvalue"); }
+			break; }
 		case 3: { auto&& pv = std::as_const(v).template reinterpret_array_cast<std::array<double, 2>>(); check_addr(K, pv, m, [&](L k) { return dp(k, 0); }); break; }
 		default: { // real_doubled merges (last extent, 2) with flatted(): in domain only when the last dimension of the source is contiguous (decided on the model)
 			{ std::vector<L> z(m.size.size(), 0); bool unit = m.size.back() < 2; if(!unit) { auto e2 = z; e2.back() = 1; unit = (m.off[std::size_t(m.lin(e2))] - m.off[0] == 1); } if(!unit) { count("skipped:real_doubled-last-dimension-not-contiguous"); break; } }
